@@ -40,8 +40,24 @@ FIRST_RUN_MISSED = {  # seeded changes the checks did NOT catch when first confr
     "C16-5": "trees had empty namespace maps; a variant mixing a default namespace (key None) with prefixes was added",
     "C18-6": "twins always had different node ids; a JSON reload (same ids, distinct objects) is now compared",
     "C19-5": "NOT DETECTED BY DESIGN: which of several <physical> children counts is unspecified in the oracle (the statement does not say; the original takes the first, the change the last)",
+    "C01-8": "no word longer than 8 children outside the W-method suite; long words that pump every DFA self-loop 9..1000 times were added (int compared with 'is' breaks beyond 256)",
+    "C02-7": "with-child and plain variants ran in different processes; they now also alternate in one process",
+    "C04-8": "lone surrogates were excluded from content menus (added; this also exposed defect F22 in the unchanged code)",
+    "C05-7": "all nodes had distinct ids; the same trees are now also built with one shared id and positional inserts",
+    "C06-8": "trees were built through the content setter; content now goes through the constructor (the loaders use the setter)",
+    "C08-7": "no text with a single newline/tab between words under collapse",
+    "C09-8": "NOT DETECTED BY DESIGN: whether find_single_node_by_path backtracks into later same-named siblings is unspecified in the oracle (None or any node satisfying the path is accepted when the first branch fails)",
+    "C10-8": "the table-integrity phase did not read Rule's accessors (content_rules etc.)",
+    "C11-8": "the registry always pointed at the tree's own nodes; variants with a later clone bound to the ids and one id unregistered were added",
+    "C14-7": "created nodes had lower-case uuid ids; explicit mixed-case ids are used now",
+    "C14-8": "prune was only enabled on known-named roots; what prune reports as removed (also the root) now counts as discarded",
+    "C15-7": "trees carried no tails; every non-root node now has one",
+    "C16-8": "every case had at least one referencing element",
+    "C18-8": "one copy per case; a second untouched copy is now compared after the first is edited",
+    "C19-7": "trees were assembled by appending; they are now also assembled with add_child(child, index)",
+    "C20-7": "the text-mode and XML-mode calls never saw the same string",
 }
-NOT_DETECTED_BY_DESIGN = {"C19-5"}
+NOT_DETECTED_BY_DESIGN = {"C19-5", "C09-8"}
 ids = sys.argv[1:] or sorted(os.listdir(os.path.join(HERE, "seeded")))
 rows = []
 for sid in ids:
